@@ -45,6 +45,8 @@ def field_mut_borrows(b, field):
 
 
 def run(ctx):
+    from .c16 import complete_write_rules
+    complete_write_rules(ctx)
     failed_rule(ctx)
     header_rule15(ctx)
     typestate(ctx)
